@@ -22,7 +22,7 @@ from statham.schema.property import Property
 PROP = "C05"
 LEVEL = "model_checking"
 RULE = (
-    "exhaustive product: 5 declaration forms (parsed typed, parsed untyped, DSL class, Object.inline, Element(properties=)) x "
+    "exhaustive product: 8 declaration forms (parsed typed, parsed untyped, DSL class, Object.inline, Element(properties=), and three of them again with a patternProperties pattern that also matches the declared names) x "
     "property sets over 3 JSON names (a, class->class_, 'a b'->a_b; each absent or one of 14 (kind, default) options: none / "
     "valid / invalid / falsy / nested-object defaults, required+default) restricted to <=2 non-trivial properties per object x 4 "
     "additionalProperties options (true, false, schema, schema with its own default) x all subsets of supplied members (+ an "
@@ -66,14 +66,21 @@ ADDITIONAL = [
     ("schema", {"type": "integer"}, lambda: Integer()),
     ("schema+default", {"type": "integer", "default": 99}, lambda: Integer(default=99)),
 ]
-FORMS = ["parsed-typed", "parsed-untyped", "dsl-class", "inline", "element-properties"]
+FORMS = ["parsed-typed", "parsed-untyped", "dsl-class", "inline", "element-properties",
+         "parsed-typed+pattern", "dsl-class+pattern", "element-properties+pattern"]  # +pattern: a patternProperties pattern matches every declared name as well
 
 
 def build(form, props, addl):
     """props: list of (json name, py name, option index).  Returns the callable model."""
     a_label, a_json, a_dsl = addl
+    pattern = form.endswith("+pattern")
+    form = form.replace("+pattern", "")
+    pat_json = {"^(a|class)": {}} if pattern else None
+    pat_dsl = (lambda: {"^(a|class)": Element()}) if pattern else (lambda: NP)
     if form.startswith("parsed"):
         schema = {"properties": {jn: copy.deepcopy(OPTIONS[oi][1]) for jn, pn, oi in props}, "additionalProperties": copy.deepcopy(a_json)}
+        if pat_json:
+            schema["patternProperties"] = pat_json
         req = [jn for jn, pn, oi in props if OPTIONS[oi][3]]
         if req:
             schema["required"] = req
@@ -88,10 +95,10 @@ def build(form, props, addl):
         cd = ObjectClassDict()
         for k, v in mk.items():
             cd[k] = v
-        return ObjectMeta("Model", (Object,), cd, additionalProperties=a_dsl())
+        return ObjectMeta("Model", (Object,), cd, additionalProperties=a_dsl(), patternProperties=pat_dsl())
     if form == "inline":
         return Object.inline("Model", properties=mk, additionalProperties=a_dsl())
-    return Element(properties=mk, additionalProperties=a_dsl())
+    return Element(properties=mk, additionalProperties=a_dsl(), patternProperties=pat_dsl())
 
 
 def read(result, pyname):
@@ -124,7 +131,7 @@ def check_case(st, form, props, addl, supplied, extra, rank):
             st.violation("extra-member-accepted", "%s: extra member accepted although additionalProperties is false" % case, case, rank)
         st.outcome("rejected-extra")
         return
-    if kind == impl.REJECT and form == "parsed-untyped" and any(OPTIONS[oi][3] and i not in supplied for i, (jn, pn, oi) in enumerate(props)):
+    if kind == impl.REJECT and form.startswith("parsed-untyped") and any(OPTIONS[oi][3] and i not in supplied for i, (jn, pn, oi) in enumerate(props)):
         # an untyped schema keeps its explicit Draft-6 "required" list: omitting a required member is a legitimate rejection
         # (the documented waiver for required-with-default is a "may", see C01); nothing to judge about defaults here
         st.outcome("strict-required-rejection")
